@@ -31,3 +31,55 @@ def scenarios(tier):
     # (wallet, position containers, vault fields, holdings, action log length) must equal the pre-call snapshot component-wise
     out += [s for s in nv_scenarios.scenarios("C04", tier) if s.params["market"] in ("uni", "squeeth", "gmx1", "gmx2") and s.params["op"] is not None]
     return out
+
+
+def static_report(outcomes):
+    """informational (evidence): every `raise` / `require(` site in the bodies of the public write operations (found by walking
+    the AST of the current source), and whether some explored path was rejected with that exception type and message stem"""
+    import ast
+    import inspect
+    import re
+    import textwrap
+
+    from demeter.aave.market import AaveV3Market
+    from demeter.deribit.market import DeribitOptionMarket
+    from demeter.gmx.market import GmxMarket
+    from demeter.gmx.market2 import GmxV2Market
+    from demeter.squeeth.market import SqueethMarket
+    from demeter.uniswap.market import UniLpMarket
+    from demeter.broker._typing import Asset
+
+    targets = {
+        AaveV3Market: ("supply", "withdraw", "borrow", "repay", "change_collateral"),
+        DeribitOptionMarket: ("deposit", "withdraw", "buy", "sell", "check_transaction", "_subtract_from_balance", "_deduct_order_amount"),
+        UniLpMarket: ("_add_liquidity_by_tick", "remove_liquidity", "collect_fee", "swap", "buy", "sell", "add_liquidity_by_value"),
+        SqueethMarket: ("open_deposit_mint", "deposit", "_deposit_uni_position", "_check_uni_position", "_withdraw_collateral", "withdraw_uni_position", "burn_and_withdraw", "_check_vault"),
+        GmxMarket: ("buy_glp", "sell_glp"),
+        GmxV2Market: ("deposit", "withdraw"),
+        Asset: ("sub",),
+    }
+    seen = " | ".join(sorted(o for o in outcomes if o.startswith("rejected")))
+    sites = []
+    for cls, names in targets.items():
+        for nm in names:
+            fn = getattr(cls, nm, None) or getattr(cls, f"_{cls.__name__}__{nm.lstrip('_')}", None)
+            if fn is None:
+                continue
+            fn = getattr(fn, "__wrapped__", fn)
+            try:
+                src = textwrap.dedent(inspect.getsource(fn))
+            except (OSError, TypeError):
+                continue
+            for node in ast.walk(ast.parse(src)):
+                msg = None
+                if isinstance(node, ast.Raise) and node.exc is not None:
+                    msg = ast.unparse(node.exc)
+                elif isinstance(node, ast.Call) and getattr(node.func, "id", "") == "require" and len(node.args) > 1:
+                    msg = "AssertionError(" + ast.unparse(node.args[1]) + ")"
+                if msg is None:
+                    continue
+                lit = re.findall(r"[\"']([^\"'{}]{6,})", msg)
+                stem = (lit[0][:24] if lit else "").strip()
+                reached = bool(stem) and stem.split("{")[0][:18] in seen
+                sites.append({"site": f"{cls.__name__}.{nm}", "raise": msg[:90], "reached_by_some_path": reached})
+    return {"rejection_sites": sites, "reached": sum(1 for s in sites if s["reached_by_some_path"]), "total": len(sites)}
